@@ -240,7 +240,7 @@ async def kiq_history():
 
 # ---------------------------------------------------------------- (d)
 def loop_case(start_off, horizon, oneshots, crons, failing_source, failing_send, slow_listing=0.0, host_offset_h=0.0, check_oneshots=None, stable_ids=False, entry='loop', base_hms=(12, 0, 0), slow_send=0.0, twin_source=False):
-    """slow_send: every send takes that long (its start is what counts); twin_source: a second source lists the same schedules under the same ids. oneshots: list of offsets (s) from BASE; crons: list of cron expressions"""
+    """slow_send: every send takes that long (its start is what counts); twin_source: a second source lists schedules with other labels under the same ids as the first source's. oneshots: list of offsets (s) from BASE; crons: list of cron expressions"""
     import taskiq.cli.scheduler.run as run_mod
     from taskiq import TaskiqScheduler, ScheduleSource
     from taskiq.schedule_sources import LabelScheduleSource
@@ -261,7 +261,7 @@ def loop_case(start_off, horizon, oneshots, crons, failing_source, failing_send,
     class B(AsyncBroker):
         async def kick(self, m):
             if failing_send and m.task_name == 'cron0' and not getattr(self, 'failed_once', False): self.failed_once = True; raise RuntimeError("send failed")
-            sent.append((round(loop.time(), 3), m.task_name))
+            sent.append((round(loop.time(), 3), m.task_name + ('/twin' if dict(m.labels).get('twin') else '')))
             if slow_send: await asyncio.sleep(slow_send)          # the send is under way (recorded at its start) and stays in flight across the next poll(s)
         async def listen(self): yield b""
     b = B()
@@ -292,7 +292,7 @@ def loop_case(start_off, horizon, oneshots, crons, failing_source, failing_send,
         def __init__(self, first): self.first = first
         async def get_schedules(self):
             if self.first.cache is None: await self.first.get_schedules()
-            return list(self.first.cache)
+            return [x.model_copy(update={'labels': dict(x.labels, twin='1')}) for x in self.first.cache]          # DIFFERENT schedules (other labels) that happen to carry the same ids as the first source's
     sources = [Slow(b) if slow_listing else ((AsyncStable if stable_ids == 'async' else Stable)(LabelScheduleSource(b)) if stable_ids else LabelScheduleSource(b))] + ([Bad()] if failing_source else [])
     if twin_source: sources.append(Twin(sources[0]))
     class Runaway(BaseException): pass
@@ -332,9 +332,10 @@ def loop_case(start_off, horizon, oneshots, crons, failing_source, failing_send,
     for i, c in enumerate(crons):
         k = sorted(s[0] for s in sent if s[1] == f'cron{i}')
         mins = sorted({int(x // 60) for x in k})
-        mult = 2 if twin_source else 1
-        if twin_source and len(k) != 2 * len(mins): pr.append(f"C15: two sources list the cron schedule {c!r} (same schedule id): each source's occurrence must be sent, one send per source and matching minute; sends at {k[:10]}")
-        elif len(mins) != len(k) and not twin_source: pr.append(f"C15: cron schedule {c!r} sent more than once in a minute: {k}")
+        if len(mins) != len(k): pr.append(f"C15: cron schedule {c!r} sent more than once in a minute: {k}")
+        if twin_source:
+            k2 = sorted(s[0] for s in sent if s[1] == f'cron{i}/twin')
+            if sorted(int(x // 60) for x in k2) != mins: pr.append(f"C15: a second source lists another schedule {c!r} (other labels) under the SAME schedule id as the first source's: it was sent in minutes {sorted(int(x // 60) for x in k2)}, the first source's in {mins} - every source's schedules are due independently of the others'")
         first = int(start_off // 60); last = int((horizon - 1) // 60)
         import pycron
         if isinstance(c, dict):          # cron entry with an offset: the wall clock it is matched against is UTC shifted by the offset (timedelta) / the zone's local time
